@@ -400,3 +400,58 @@ class ValidateInputTypeComposition(Contract):
 
 
 CONTRACTS += [ValidateTypeIsInputType(), ValidateInputTypeComposition()]
+
+
+# ---- object types declare at least one (non-meta) field
+from pyvc.builtins import str_dunder        # noqa: E402
+
+NameIsMeta = ForallList('field_name_starts_with_two_underscores', lambda n: str_dunder(V.s(n)))
+NameIsOwn = ForallList('field_name_is_not_meta', lambda n: z3.Not(str_dunder(V.s(n))))
+
+
+def object_non_empty(p):
+    t = V.snd(p)
+    return z3.Implies(exact(t, 'GraphQLObjectType'), z3.Not(NameIsMeta(keys(V.ditems(attr0(t, 'implemented_fields'))))))
+
+
+ObjectsNonEmpty = ForallList('object_type_has_an_own_field', object_non_empty)
+AllStrKeys = ForallList('string_key_entry', lambda p: z3.And(V.is_Pair(p), V.is_Str(V.fst(p))))
+AllObjEntries = ForallList('object_type_entry', lambda p: z3.And(V.is_Pair(p), V.is_Str(V.fst(p)), V.is_Obj(V.snd(p)),
+                                                                 z3.Implies(exact(V.snd(p), 'GraphQLObjectType'), z3.And(V.oref(V.snd(p)) >= 0, V.is_Dict(attr0(V.snd(p), 'implemented_fields')),
+                                                                                                                        AllStrKeys(V.ditems(attr0(V.snd(p), 'implemented_fields')))))))
+
+
+class ValidateNonEmptyObject(Contract):
+    """_validate_non_empty_object: reports iff some object type declares no field besides the injected meta fields (names starting with `__`)"""
+    key = S_ + '_validate_non_empty_object'
+    property_ids = ('C12',)
+    params = ['self']
+    self_class = 'GraphQLSchema'
+
+    def args(self, en, names):
+        self.A = super().args(en, names)
+        return self.A
+
+    @property
+    def filter_specs(self):
+        return {0: (NameIsOwn, NameIsMeta, lambda en: [])}
+
+    def pre(self, A, st):
+        s = A['self']
+        return [('schema', z3.And(exact(s, 'GraphQLSchema'), V.oref(s) >= 0, V.is_Dict(attr0(s, 'type_definitions')), AllObjEntries(V.ditems(attr0(s, 'type_definitions')))))]
+
+    def _inv(self, en, st, k, st0):
+        errors = V.items(en.read(st.env['errors'], st))
+        return {'errors_iff_empty_object_so_far': VL.is_nil(errors) == ObjectsNonEmpty(take(V.ditems(attr0(self.A['self'], 'type_definitions')), k))}
+
+    @property
+    def loops(self):
+        return {0: LoopContract(self._inv)}
+
+    def post(self, A, st0, out):
+        if out.kind == 'raise':
+            return never_raises(out)
+        return [('reports_iff_some_object_type_has_no_own_field', z3.And(V.is_List(out.value), VL.is_nil(V.items(out.value)) == ObjectsNonEmpty(V.ditems(attr0(A['self'], 'type_definitions')))))]
+
+
+CONTRACTS.append(ValidateNonEmptyObject())
